@@ -224,6 +224,30 @@ def specToLocal (ops : StrOps α) (maps : List (DeclMap α)) (allow : Bool) (att
     | .raised => false
     | .ok d => dictEq d (expectedDict es)
 
+/-! ### receipt of several attribute statements (`AuthnResponse.get_identity`) -/
+
+def mustKeys (es : List (Expect α)) : List α :=
+  es.filterMap fun e => match e with
+    | .must k _ => some k
+    | _ => none
+
+/-- some local name is demanded by two different statements -/
+def collide : List (List α) → Bool
+  | [] => false
+  | ks :: rest => rest.any (fun ks' => ks.any fun k => ks'.contains k) || collide rest
+
+/-- Every statement by itself as in `specToLocal`; the identity is the union of the statements'
+    dictionaries.  The property does not say what happens when two statements carry the same local name
+    (the code lets the later statement replace the earlier one): such inputs are unconstrained. -/
+def specIdentity (ops : StrOps α) (maps : List (DeclMap α)) (allow : Bool) (stmts : List (List (WireAttr α)))
+    (out : Res (Dict α (List (RVal α)))) : Bool :=
+  let ess := stmts.map fun st => st.map (expectLocal ops maps allow)
+  if ess.any (fun es => es.any isAny) then true
+  else if collide (ess.map mustKeys) then true
+  else match out with
+    | .raised => false
+    | .ok d => dictEq d (ess.foldl (fun acc es => Dict.update acc (expectedDict es)) [])
+
 /-! ### send, then receive -/
 
 inductive ExpectRT (α : Type) where
@@ -334,6 +358,20 @@ def whyToLocal (ops : StrOps α) (maps : List (DeclMap α)) (allow : Bool) (attr
   | .ok d =>
     let es := attrs.map (expectLocal ops maps allow)
     let want := expectedDict es
+    (want.filterMap fun p => match Dict.get d p.1 with
+      | none => some ("known-attribute-missing", p.1)
+      | some got => if got = p.2 then none else some ("values-differ", p.1)) ++
+    (d.filterMap fun p => match Dict.get want p.1 with
+      | none => some ("unexpected-attribute", p.1)
+      | some _ => none)
+
+def whyIdentity (ops : StrOps α) (maps : List (DeclMap α)) (allow : Bool) (stmts : List (List (WireAttr α)))
+    (out : Res (Dict α (List (RVal α)))) : List (String × α) :=
+  match out with
+  | .raised => []
+  | .ok d =>
+    let ess := stmts.map fun st => st.map (expectLocal ops maps allow)
+    let want := ess.foldl (fun acc es => Dict.update acc (expectedDict es)) []
     (want.filterMap fun p => match Dict.get d p.1 with
       | none => some ("known-attribute-missing", p.1)
       | some got => if got = p.2 then none else some ("values-differ", p.1)) ++
